@@ -68,14 +68,21 @@ def run(chk):
                 stars, C.pairs(Nr, Mr)))
             case = dict(carrier=ci, t=t, md=car.md, norm=car._esc_norm, tcc=car.tcc, rate=rate,
                         callable=bool(car._time_dep_esc), y=[float(v) for v in y])
-            meta.append((case, out))
+            thin = bool(np.any((tb.upper > tb.lower) & ((tb.upper - tb.lower) < 1e-9 * tb.lower)))
+            meta.append((case, out, thin))
             chk.note_distinct(case)
             oracle(chk, quad, car, case, out, tb, Ns, al, Nr, Mr)
         vals = C.eval_cases("C03_%d" % ci, IMPORTS, "", exprs, shard=60)
-        for (case, out), v in zip(meta, vals):
+        for (case, out, thin), v in zip(meta, vals):
             ncase += 1
             marr = [ol(a) for a in v]
             if not all(C.all_close(a, b, rtol=1e-8, atol=1e-300) for a, b in zip(out, marr)):
+                if thin:
+                    # a bin thinner than 1e-9: its moments are differences of nearly equal powers, i.e. rounding noise of pow (finding
+                    # pk_generic_branch_cancellation, C12); whether |P1| falls below the NaN threshold is decided by the last bit of
+                    # libm's pow vs the model's.  Counted, not compared.
+                    chk.count("knife-edge: populated or empty turn-off bin thinner than 1e-9, moments are rounding noise (not compared)")
+                    continue
                 bad = [(k, j) for k in range(4) for j in range(len(out[k])) if not C.close_float(out[k][j], marr[k][j], rtol=1e-8)]
                 k, j = bad[0]
                 dis.append(dict(input=case, component=["dNs", "dalpha", "dNr", "dMr"][k], index=j, impl=C.jsonable(out[k][j]),
@@ -153,6 +160,10 @@ def oracle(chk, quad, car, case, out, tb, Ns, al, Nr, Mr):
         p = a + k
         return math.log(u / l) if p == 0 else (u ** p - l ** p) / p
     ms = np.array([mom(a, 2, l, u) / mom(a, 1, l, u) if (u > l and (u - l) / l >= 1e-9) else float("nan") for a, l, u in zip(al, lo, up)])
+    # mean mass for the mass bookkeeping: a bin thinner than 1e-9 (turn-off mass just above an edge) still holds its stars, at the
+    # mass of its edges; the moment ratio would be cancellation noise there
+    thin_pop = bool(any((u >= l) and (u - l) < 1e-9 * l and n > 0 for n, l, u in zip(Ns, lo, up)))
+    ms_book = np.array([m_ if not math.isnan(m_) else (0.5 * (l + u) if u >= l else float("nan")) for m_, l, u in zip(ms, lo, up)])
     if rate == 0:
         if any(x != 0 for x in dNs + dal + dNr + dMr):
             chk.fail("with zero rate nothing escapes", case, dict(max=max(map(abs, dNs + dNr))))
@@ -167,10 +178,10 @@ def oracle(chk, quad, car, case, out, tb, Ns, al, Nr, Mr):
         if nrm == "N":
             s = sum(dNs) + sum(dNr)
         else:
-            s = float(np.nansum(np.array(dNs) * ms)) + sum(dMr)
+            s = float(np.nansum(np.array(dNs) * ms_book)) + sum(dMr)
         if abs(s - rate) > 1e-8 * tot_scale:
             chk.fail("the loss summed over all bins equals the requested rate (before core collapse, norm %s)" % nrm, case,
-                     dict(sum=s, rate=rate))
+                     dict(sum=s, rate=rate), thin_bin_populated=thin_pop)
     else:
         chk.count("post-core-collapse " + nrm)
         # weights by quadrature, independent of the moment helper
@@ -203,7 +214,7 @@ def oracle(chk, quad, car, case, out, tb, Ns, al, Nr, Mr):
         s = (sum(dNs) + sum(dNr)) if nrm == "N" else (sum(B * w for w in Jq) + sum(dMr))
         if abs(s - rate) > 1e-7 * tot_scale:
             chk.fail("the loss summed over all bins equals the requested rate (after core collapse, norm %s)" % nrm, case,
-                     dict(sum=s, rate=rate))
+                     dict(sum=s, rate=rate), thin_bin_populated=thin_pop)
         for i, (d, l, u, m_) in enumerate(zip(dal, lo, up, ms)):
             want = B * (math.sqrt(l / md) - math.sqrt(u / md)) / math.log(u / l) if (m_ < md and u > l) else 0.0
             if abs(d - want) > 1e-7 * max(abs(want), 1e-300) and abs(d - want) > 1e-300:
@@ -213,6 +224,12 @@ def oracle(chk, quad, car, case, out, tb, Ns, al, Nr, Mr):
         if n > 0 and abs(dm * n - dn * m) > 1e-9 * max(abs(dm * n), abs(dn * m), 1e-300):
             chk.fail("escape preserves remnant mean masses", case, dict(rem_bin=j))
             break
+
+
+def classify(f):
+    if f["clause"].startswith("the loss summed over all bins equals the requested rate") and f.get("thin_bin_populated"):
+        return "thin_turnoff_bin_mean_mass_noise"
+    return None
 
 
 def replay(chk, payload):
